@@ -44,11 +44,12 @@ func (g *srvRig) componentHandshake(c cliCfg, seg func() vk.SegFunc) (res hsResu
 		res.cliErr, res.stage = err, "config"
 		return
 	}
-	o := vk.PipeOpts{NoCut: true}
+	o := vk.PipeOpts{NoCut: true, Window: g.hsWindow}
 	if seg != nil {
 		o.Seg[0], o.Seg[1] = seg(), seg()
 	}
 	p := g.net.NewPipe(o)
+	g.hsPipe = p
 	done := make(chan struct{})
 	tr := remote.Transport.CreateTransport()
 	res.cliConn = tr
@@ -359,7 +360,8 @@ func TestVerif_C06(t *testing.T) {
 		}
 		rng := r.Rand("c06s", i)
 		c := c06Cfg(rng, i*7+3)
-		c.Method = []string{"shadowsocks", "m", "abcdefghijkl"}[i%3]
+		// (openvpn is served by a udp endpoint: the session still has the mode the CLIENT asked for)
+		c.Method = []string{"shadowsocks", "m", "abcdefghijkl", "openvpn", "shadowsocks"}[i%5]
 		c.UDP = false
 		c.NumConn = 1 + i%4
 		if c.SessionID == 0 {
@@ -437,7 +439,7 @@ func TestVerif_C06(t *testing.T) {
 			if ss.Unordered != c.UDP {
 				vkind, vdet = "unordered-flag", "server-side session has the wrong ordered/unordered mode"
 			}
-			want := map[string]string{"shadowsocks": "tcp!10.0.0.1:1111", "m": "tcp!10.0.0.4:4444", "abcdefghijkl": "tcp!10.0.0.5:5555"}[c.Method]
+			want := map[string]string{"shadowsocks": "tcp!10.0.0.1:1111", "m": "tcp!10.0.0.4:4444", "abcdefghijkl": "tcp!10.0.0.5:5555", "openvpn": "udp!10.0.0.2:2222"}[c.Method]
 			g.mu.Lock()
 			if len(g.proxyDials) == 0 || g.proxyDials[0] != want {
 				vkind, vdet = "proxy-address", fmt.Sprintf("proxy dialled %v, the configured method %q maps to %s", g.proxyDials, c.Method, want)
